@@ -254,7 +254,7 @@ class Ctx:
         self.assumptions: list[str] = []
         self.extra: dict = {}
         self.exhaustive_all = None
-        self.budget_s = float(os.environ.get("VERIF_BUDGET_S", "0")) or (150.0 if tier == "quick" else 1500.0)
+        self.budget_s = float(os.environ.get("VERIF_BUDGET_S", "0")) or (300.0 if tier == "quick" else 1500.0)
         self._pool = None
 
     @property
@@ -305,6 +305,66 @@ class Ctx:
         for st in self.pool().imap_unordered(_hyp_worker, jobs, chunksize=1):
             part.merge(st)
         self._note_part(name, part, t0, kind="hypothesis", max_examples=per * shards, shards=shards)
+        self.exhaustive_all = False
+        self.stats.merge(part)
+        return part
+
+    def fuzz(self, name: str, strat_name: str, check_name: str, runs: int, procs: int = 8, max_len: int = 4096) -> Stats | None:
+        """Coverage-guided campaign (pbt/fuzz.py: atheris/libFuzzer drives the property's own strategy and check_case through
+        Hypothesis' fuzz_one_input, pytestarch instrumented). `procs` independent campaigns with derived seeds and empty
+        corpora, `runs` executions each. Skipped (and said so in the evidence) when atheris cannot be imported."""
+        import subprocess
+        import tempfile
+
+        t0 = time.time()
+        try:
+            import atheris  # noqa: F401
+        except Exception as e:  # noqa: BLE001
+            self.stats.parts[name] = {"kind": "coverage-guided fuzzing (atheris)", "skipped": f"atheris not importable: {e}"}
+            return None
+        here = str(VERIF)
+        env = dict(os.environ, PYTHONHASHSEED="0", VERIF_REPO=str(REPO),
+                   PYTHONPATH=os.pathsep.join([str(REPO / "src"), here, str(VERIF / ".deps")]))
+        left = max(30, int(self.deadline - time.time()))
+        jobs = []
+        for i in range(procs):
+            fd, out = tempfile.mkstemp(prefix="pbt_fuzz_", suffix=".json")
+            os.close(fd)
+            corpus = tempfile.mkdtemp(prefix="pbt_corpus_")
+            seed_i = derive_seed(self.seed, self.prop, name, i) % (2**31 - 1) + 1  # libFuzzer: 0 means random
+            cmd = [sys.executable, "-m", "pbt.fuzz", self.prop, strat_name, check_name, out, corpus,
+                   f"-runs={runs}", f"-seed={seed_i}", f"-max_len={max_len}", "-len_control=0", f"-max_total_time={left}", "-print_final_stats=1", "-verbosity=0"]
+            # a few starting inputs long enough for the strategy to draw a whole case from (an empty corpus makes libFuzzer
+            # start with inputs of a few bytes, which Hypothesis rejects as too short); pure function of the seed
+            import random as _r
+            rng = _r.Random(seed_i)
+            for k in range(8):
+                Path(corpus, f"start{k}").write_bytes(bytes(rng.getrandbits(8) if rng.random() < 0.7 else 0 for _ in range(max_len // (1 + k % 4))))
+            jobs.append((out, subprocess.Popen(cmd, env=env, cwd=here, stdout=subprocess.PIPE, stderr=subprocess.PIPE, text=True)))
+        part = Stats(self.prop)
+        cov = []
+        for out, p in jobs:
+            so, se = p.communicate()
+            try:
+                body = json.loads(Path(out).read_text())
+            except Exception:  # noqa: BLE001
+                part.errors.append(f"fuzz campaign produced no result file (rc={p.returncode}): {se[-600:]}")
+                continue
+            one = Stats(self.prop)
+            one.evaluations = body["evaluations"]
+            one.nontrivial_hashes = set(body["nontrivial_hashes"])
+            one.labels.update(body["labels"])
+            one.samples = body["samples"]
+            one.violations = body["violations"]
+            one.excluded_known.update(body["excluded_known"])
+            part.merge(one)
+            for line in se.splitlines():
+                if "stat::number_of_executed_units" in line:
+                    cov.append(int(line.split(":")[-1]))
+            if p.returncode not in (0,) and not body["evaluations"]:
+                part.errors.append(f"fuzz campaign failed (rc={p.returncode}): {se[-600:]}")
+        self._note_part(name, part, t0, kind="coverage-guided fuzzing (atheris/libFuzzer over Hypothesis fuzz_one_input, pytestarch instrumented)",
+                        campaigns=procs, runs_per_campaign=runs, executed_units=sum(cov))
         self.exhaustive_all = False
         self.stats.merge(part)
         return part
